@@ -4,6 +4,9 @@ out=$(mktemp -d /tmp/verif-th-XXXXXX)
 for p in C18 C11 C17 C07 C14; do
   r=$(VERIF_SEED=${1:-1} VERIF_EVIDENCE_DIR=$out VERIF_REPLAY_DIR=$out /venv/bin/python run_check.py $p --tier thorough 2>&1); e=$?
   echo "seed=${1:-1} $p exit=$e $(echo "$r" | grep -v '^KNOWN' | tail -1 | cut -c1-160)"
-  if [ $e -ne 0 ]; then echo "$r" | grep -v '^KNOWN' | head -20 | cut -c1-800; fi
+  if [ $e -ne 0 ]; then
+    echo "$r" | grep -v '^KNOWN' | head -20 | cut -c1-800
+    mkdir -p /tmp/scratch/thorough_fail && cp -r $out/$p /tmp/scratch/thorough_fail/${1:-1}_$p 2>/dev/null   # keep the replay files
+  fi
 done
 rm -rf $out
